@@ -1,3 +1,69 @@
-import Kio.Model.Records
+import Kio.Proofs.RecWrite
+import Kio.Proofs.Crc
+import Kio.Proofs.Float
+import Kio.Model.Current
+/-!
+# C17 — new record batches are written in the Kafka v2 batch format
+`Spec.batchBytes` / `Spec.deriveBatch` / `Spec.decBatch` (Kio/Spec/Batch.lean) are the
+independent statement of the format, of the derived batch parameters, and an independent decoder.
+-/
 namespace Kio.C17
+open Kio
+
+theorem float_exact : FloatExact := by
+  intro k h0 h1
+  apply ms_exact
+  rw [abs_lt]
+  constructor <;> omega
+
+/-- **layout**: for every non-empty record list with millisecond-precision timestamps, what
+    `write_new_batch` emits is the v2 layout of the correctly derived parameters (base offset,
+    last offset delta, base/max timestamp, count, batch length, CRC) -/
+theorem layout (nb : NewRecordBatch) (hts : ∀ r ∈ nb.records, r.msTimestamp) (bs : Bytes)
+    (h : writeNewBatch RecCfg.repaired nb = .ok bs) :
+    ∃ wb, Spec.deriveBatch nb.params = some wb ∧ Spec.batchBytes wb = some bs :=
+  Kio.writeNewBatch_eq_spec float_exact nb hts bs h
+
+/-- conversely the writer succeeds whenever the derived batch is representable -/
+theorem complete (nb : NewRecordBatch) (hts : ∀ r ∈ nb.records, r.msTimestamp)
+    (wb : Spec.WireBatch) (bs : Bytes) (hd : Spec.deriveBatch nb.params = some wb)
+    (h : Spec.batchBytes wb = some bs) : writeNewBatch RecCfg.repaired nb = .ok bs :=
+  Kio.spec_eq_writeNewBatch float_exact nb hts wb bs hd h
+
+/-- the independent decoder inverts the specification's encoder -/
+theorem spec_roundtrip (b : Spec.WireBatch) (bs : Bytes) (h : Spec.batchBytes b = some bs) :
+    Spec.decBatch bs = some b := Kio.spec_decBatch_batchBytes b bs h
+
+/-- **independent decode**: an independent decoder recovers exactly the input records and the
+    derived batch parameters from the writer's output -/
+theorem independent_decode (nb : NewRecordBatch) (hts : ∀ r ∈ nb.records, r.msTimestamp)
+    (bs : Bytes) (h : writeNewBatch RecCfg.repaired nb = .ok bs) :
+    ∃ wb, Spec.deriveBatch nb.params = some wb ∧ Spec.decBatch bs = some wb := by
+  obtain ⟨wb, hd, hb⟩ := layout nb hts bs h
+  exact ⟨wb, hd, spec_roundtrip wb bs hb⟩
+
+/-- **CRC coverage**: bytes 17..20 hold the CRC-32C of exactly the bytes from offset 21 (the
+    attributes field) to the end; bytes 8..11 hold the total length − 12; byte 16 is magic 2 -/
+theorem crc_covers (nb : NewRecordBatch) (hts : ∀ r ∈ nb.records, r.msTimestamp) (bs : Bytes)
+    (h : writeNewBatch RecCfg.repaired nb = .ok bs) :
+    21 ≤ bs.length ∧
+    Spec.intBE 4 false (Crc.crc32c (bs.drop 21)) = some ((bs.drop 17).take 4) ∧
+    Spec.intBE 4 true ((bs.length : Int) - 12) = some ((bs.drop 8).take 4) ∧
+    bs[16]? = some 2 := by
+  obtain ⟨wb, _, hb⟩ := layout nb hts bs h
+  exact Kio.spec_crc_covers wb bs hb
+
+/-- the CRC model is CRC-32C: the standard check value -/
+theorem crc_check_value :
+    Crc.crc32c [0x31, 0x32, 0x33, 0x34, 0x35, 0x36, 0x37, 0x38, 0x39] = 0xE3069283 :=
+  Crc.check_value
+
+/-- as shipped the writer truncated float milliseconds: 1.001 s was written as 1000 ms -/
+theorem shipped_truncation_witness :
+    recMs RecCfg.shipped 1001000 = 1000 ∧ recMs RecCfg.repaired 1001000 = 1001 := by
+  constructor <;> decide +kernel
+
+/-- the tree as it is now uses the repaired writer -/
+theorem current_repaired : RecCfg.current = RecCfg.repaired := rfl
+
 end Kio.C17
